@@ -820,9 +820,10 @@ func (d *xbDriver) runScript(script [][]int) {
 				res = r
 				break
 			}
-			d.held = d.held[:len(d.held)-1] // ownership goes to the mapping
-			private[u] = f
-			res = d.mapPage(u, f, vmm.FlagPresent|vmm.FlagRW|vmm.FlagNoExecute, "own")
+			if res = d.mapPage(u, f, vmm.FlagPresent|vmm.FlagRW|vmm.FlagNoExecute, "own"); res == "ok" {
+				d.held = d.held[:len(d.held)-1] // ownership goes to the mapping
+				private[u] = f
+			}
 		case 9:
 			d.store(u)
 		case 10:
